@@ -21,7 +21,8 @@ class NonparametricElectionModel(ConformalElectionModel):
         return round(min(1 + (alpha + 1) / (n_reporting_units * (alpha - 1)), 0.9), 2)
 
     def get_minimum_reporting_units(self, alpha: float) -> int:
-        return math.ceil(-1 * (alpha + 1) / (alpha - 1))
+        # at least two units: one to train on and one for the conformalization set
+        return max(math.ceil(-1 * (alpha + 1) / (alpha - 1)), 2)
 
     def _compute_population_correction(
         self, conformalization_data: pd.DataFrame, scores: pd.Series, correction_quantile: float, estimand: str
